@@ -285,15 +285,16 @@ Theorem C15_nonmetric_dist_split_dependent_refuted :
 Proof. exact nonmetric_dist_split_dependent. Qed.
 
 (* ---------- pool layout: thread_pool_execute / search_many ---------- *)
-(* whatever the number of pools (none configured, or n >= 1) and whatever the chunking, result i is op(solution i) *)
+(* whatever the number of pools (none configured, or ANY n >= 0 — an empty vector of pools included) and whatever the chunking,
+   result i is op(solution i) *)
 Theorem C15_search_many_values : forall (A R : Type) (pools : option nat) (op : A -> R) (sols : list A) (t : ptree (nat * A)),
-  pools <> Some 0%nat -> pflatten t = enumerate sols ->
+  pflatten t = enumerate sols ->
   values (search_many pools op t) = Some (map op sols).
 Proof. exact (@search_many_values). Qed.
 
 Theorem C15_search_many_pool_independent : forall (A R : Type) (p1 p2 : option nat) (op : A -> R) (sols : list A)
   (t1 t2 : ptree (nat * A)),
-  p1 <> Some 0%nat -> p2 <> Some 0%nat -> pflatten t1 = enumerate sols -> pflatten t2 = enumerate sols ->
+  pflatten t1 = enumerate sols -> pflatten t2 = enumerate sols ->
   values (search_many p1 op t1) = values (search_many p2 op t2).
 Proof. exact (@search_many_pool_independent). Qed.
 
@@ -302,10 +303,20 @@ Theorem C15_search_many_pools_exist : forall (A R : Type) (n : nat) (op : A -> R
   Forall (fun p => (p < S n)%nat) (pools_used (search_many (Some (S n)) op t)).
 Proof. exact (@search_many_pools_exist). Qed.
 
-(* Parallelism::new(0, _) (an empty vector of pools): `idx % 0` — every dispatched task panics *)
-Theorem C15_zero_pools_panics_refuted : forall (A R : Type) (op : A -> R) (t : ptree (nat * A)),
-  pflatten t <> [] -> values (search_many (Some 0%nat) op t) = None.
-Proof. exact (@search_many_zero_pools_panics). Qed.
+(* Parallelism::new(0, _) (an empty vector of pools) behaves as no pools: every task runs inline (code as it is, /repo b5c201c) *)
+Theorem C15_zero_pools_run_inline : forall (A R : Type) (op : A -> R) (t : ptree (nat * A)),
+  search_many (Some 0%nat) op t = search_many None op t /\ pools_used (search_many (Some 0%nat) op t) = [].
+Proof. exact (@search_many_zero_pools_inline). Qed.
+
+(* the pre-fix function (finding C15-F2, repaired by /repo b5c201c): `idx % 0` — every dispatched task panicked; for every other
+   setting it was the present function *)
+Theorem C15_zero_pools_panics_prefix_refuted : forall (A R : Type) (op : A -> R) (t : ptree (nat * A)),
+  pflatten t <> [] -> values (search_many_prefix (Some 0%nat) op t) = None.
+Proof. exact (@search_many_zero_pools_panics_prefix). Qed.
+
+Theorem C15_search_many_prefix_agrees : forall (A R : Type) (pools : option nat) (op : A -> R) (t : ptree (nat * A)),
+  pools <> Some 0%nat -> search_many_prefix pools op t = search_many pools op t.
+Proof. exact (@search_many_prefix_agrees). Qed.
 
 (* ---------- decomposition search ---------- *)
 (* the groups of route indices partition 0..n-1 (no route lost, none duplicated), for all proximity lists and all drawn group
